@@ -28,6 +28,20 @@ func verifClock(format string) {
 	models.Hostname = v.NondetString("hostname", 2)
 	smt := time.Unix(1400000000, 0).UTC()
 	sc.Info.Scripts.PostInstall = models.AddFile("/scripts/post", []byte("x"), 0o755, smt)
+	if v.NondetBool("every.optional.member") {
+		// every optional control member / scriptlet a format can carry: each is
+		// written by its own piece of code with its own timestamp
+		extra := models.AddFile("/scripts/extra", []byte("y"), 0o755, smt)
+		sc.Info.Scripts.PreRemove = extra
+		sc.Info.Deb.Scripts.Rules, sc.Info.Deb.Scripts.Templates, sc.Info.Deb.Scripts.Config = extra, extra, extra
+		sc.Info.Deb.Triggers.Interest = []string{"t"}
+		sc.Info.APK.Scripts.PreUpgrade, sc.Info.APK.Scripts.PostUpgrade = extra, extra
+		sc.Info.ArchLinux.Scripts.PreUpgrade, sc.Info.ArchLinux.Scripts.PostUpgrade = extra, extra
+		sc.Info.RPM.Scripts.PreTrans, sc.Info.RPM.Scripts.PostTrans, sc.Info.RPM.Scripts.Verify = extra, extra, extra
+		if format == "deb" {
+			sc.Info.Changelog = models.AddFile("/src/changelog.yaml", []byte("- semver: 1.0.0\n"), 0o644, smt)
+		}
+	}
 	var buf bytes.Buffer
 	err := Packager(format).Package(sc.Info, &buf)
 	v.Reach("C07.clock.ran")
